@@ -44,9 +44,11 @@ X(t, L, k, m, from, n) == Case(t, L, k, KS, m, MS, from, n)
 \* ---- C05 ---------------------------------------------------------------
 BLens == {0, 1, 127, 128, 129, 255, 256, 257}
 SLens == {0, 1, 63, 64, 65, 127, 128, 129}
+BLensQ == {0, 1, 127, 128, 129, 257}
+SLensQ == {0, 1, 63, 64, 65, 129}
 C05Quick ==
-       { H("b", p[1], p[2], m) : p \in {<<64, 0>>, <<32, 0>>, <<48, 0>>, <<1, 64>>, <<20, 1>>, <<64, 64>>, <<48, 32>>, <<32, 16>>}, m \in BLens }
-  \cup { H("s", p[1], p[2], m) : p \in {<<32, 0>>, <<32, 32>>, <<32, 1>>, <<16, 16>>, <<16, 32>>, <<16, 1>>}, m \in SLens }
+       { H("b", p[1], p[2], m) : p \in {<<64, 0>>, <<32, 0>>, <<1, 64>>, <<20, 1>>, <<64, 64>>, <<48, 32>>}, m \in BLensQ }
+  \cup { H("s", p[1], p[2], m) : p \in {<<32, 0>>, <<32, 32>>, <<16, 16>>, <<16, 1>>}, m \in SLensQ }
   \cup { Case("b", 64, 64, 1, 129, 0, 0, 0), Case("b", 64, 0, 0, 128, 1, 0, 0),       \* all-ones key / all-zero, all-ones messages
          Case("s", 32, 32, 1, 65, 0, 0, 0), Case("s", 32, 0, 0, 64, 1, 0, 0) }
 BLensT == BLens \cup {2, 64, 383, 384, 385, 640}
